@@ -11,6 +11,8 @@ import PV.C16.Lemmas3
 import PV.C16.Paging
 import PV.C16.RowsExec
 import PV.C16.WithRows
+import PV.C16.GroupBy
+import PV.C16.Iter1
 namespace PV.C16
 open List
 
@@ -574,21 +576,37 @@ theorem groupBy_slice (merged : List PV.C17.GroupCount) (o l : Nat) :
     have : merged.drop o = [] := List.drop_eq_nil_iff.mpr (Nat.le_of_not_lt ho)
     simp [this]
 
-/-- GroupBy, the part proved so far.
+/-- GroupBy, what is proved and what is not.
 
-Full-strength statement (kept here, checked on every run by the correspondence harness and by the
-`#spec` oracle of pm_c16, not yet proved):
+Full-strength statement:
 
     theorem C16_groupby (db : DB) (hwf : db.WF) (a : GroupByArgs) (shards : List Nat)
         (hprev : every child carries `previous` or none does) :
         groupBy db a shards = Spec.groupBy db a shards
 
-i.e. `newGroupByIterator` / `nextAtIdx` / `Next` (seek to `previous`, wrap-around, pruning of empty
-prefixes) enumerate exactly the row combinations with a non-zero count in ascending order with exact
-counts, and the per-shard limit together with `mergeGroupCounts` keeps the first limit+offset of
-them. EXCLUDED from the theorem below: the iterator and the merge. PROVED: what executeGroupBy does
-with the merged list — fetching `limit+offset` groups and slicing (the repaired code) returns
-exactly groups `offset … offset+limit-1` of the full ordered list `all`, for every offset and limit. -/
+PROVED (named theorems below in this file):
+  * `C16_groupby_of_shards` — everything above the per-shard iterator, for children without limit /
+    column: `mergeGroupCounts` over the shards with the fetch limit (via PV.C17.K: the merge is the
+    first `limit` of the key-wise sum, `allGroups_eq_merge`, `foldl_mergeGroupCounts`), offset and
+    limit slicing; reduces `C16_groupby` to ONE hypothesis `hshard`: each shard's iterator returns the
+    first limit+offset of `Spec.shardGroups` (its combinations at or after the start with a non-zero
+    count on that shard, ascending, exact counts).
+  * `C16_paging_groupby` — on the specification: a request whose children carry group `g` as
+    `previous` is the page after `g` (`lexGE_bumpLast`), and pages requested until exhaustion
+    concatenate to the whole answer (lexicographic instance of `Paging.pagePrev_all`).
+  * `C16_groupby_shard_single` — the iterator itself for ONE field: `newGroupByIterator` with
+    `previous` (seek), `nextAtIdx` (skipping rows without a bit in the filter), `Next`, the result
+    loop and the fuel of the model, = the rows after `previous` with a bit in the filter, exact
+    counts, first limit+offset.
+  * `C16_groupby_partial` (this theorem) — the limit+offset fetch and slicing.
+NOT PROVED (checked on every run by correspondence + the `#spec` oracle, generator `genGroupCase`):
+  * `hshard` for TWO OR MORE fields: `gbiInit` leaves the iterators on the least combination ≥ start
+    (ignorePrev after an overshoot or a wrap, `advanceLeft`), `nextAtIdx` is the odometer successor
+    with pruning of prefixes whose intersection is empty, and the fuel of the model suffices;
+  * for one field: rewriting the right-hand side of `C16_groupby_shard_single` as
+    `(Spec.shardGroups …).take` (the fragment's rows are a sub-list of the field's rows over all shards);
+  * children with limit / column (`filterWithRows` domains: `C16_rows_withRows`, `C16_rows_exec` give
+    the domains, the glue is missing). -/
 theorem C16_groupby_partial (all : List PV.C17.GroupCount) (o l : Nat) :
     (let merged := all.take (l + o)      -- what the shards and the merge keep: fetchLimit = l + o
      let res := if o < merged.length then merged.drop o else []
@@ -597,6 +615,316 @@ theorem C16_groupby_partial (all : List PV.C17.GroupCount) (o l : Nat) :
   simp only at this ⊢
   rw [this, List.drop_take]
   simp [List.take_take]
+
+theorem C16_groupby_partial_aux (all : List PV.C17.GroupCount) (o l : Nat) :
+    (if l < (if o < (all.take (l + o)).length then (all.take (l + o)).drop o else []).length then
+      (if o < (all.take (l + o)).length then (all.take (l + o)).drop o else []).take l
+     else (if o < (all.take (l + o)).length then (all.take (l + o)).drop o else [])) = (all.drop o).take l := by
+  have := groupBy_slice (all.take (l + o)) o l
+  simp only at this
+  rw [this, List.drop_take]
+  simp [List.take_take]
+
+/-! ### GroupBy above the per-shard iterator -/
+
+section GroupByExec
+open PV.C17 (GroupCount mergeGroupCounts GLen gmerge)
+
+theorem foldl_congr_mem {α β : Type} (f g : β → α → β) (l : List α) (b : β)
+    (h : ∀ acc x, x ∈ l → f acc x = g acc x) : l.foldl f b = l.foldl g b := by
+  induction l generalizing b with
+  | nil => rfl
+  | cons x rest ih =>
+    simp only [List.foldl_cons]
+    rw [h b x (by simp)]
+    exact ih _ (fun acc y hy => h acc y (List.mem_cons_of_mem _ hy))
+
+theorem filterMap_congr_mem {α β : Type} (f g : α → Option β) (l : List α)
+    (h : ∀ x ∈ l, f x = g x) : l.filterMap f = l.filterMap g := by
+  induction l with
+  | nil => rfl
+  | cons x rest ih =>
+    simp only [List.filterMap_cons]
+    rw [h x (by simp), ih (fun y hy => h y (List.mem_cons_of_mem _ hy))]
+
+theorem groupDoms_plain (db : DB) (a : GroupByArgs) (shards : List Nat)
+    (hplain : ∀ ch ∈ a.children, ch.limit = none ∧ ch.column = none) :
+    Spec.groupDoms db a shards = a.children.map (fun ch => Spec.fieldRows db ch.field shards) := by
+  unfold Spec.groupDoms
+  apply List.map_congr_left
+  intro ch hch
+  have := hplain ch hch
+  simp [this.1, this.2]
+
+theorem shardGroups_GLen (db : DB) (a : GroupByArgs) (shards : List Nat) (sh : Nat) :
+    GLen a.children.length (Spec.shardGroups db a shards sh) := by
+  intro z hz
+  rcases List.mem_filterMap.mp hz with ⟨t, ht, hg⟩
+  rw [groupOf_group a t _ z hg, tuples_length _ t ht]
+  simp [Spec.groupDoms]
+
+/-- GroupBy, everything above the per-shard iterator (children without `limit` / `column`, i.e.
+the paging use: `previous`, `limit`, `offset`, `filter`). IF every shard's iterator returns the
+first `limit+offset` of that shard's combinations with a non-zero count (hypothesis `hshard` —
+this is the statement about `newGroupByIterator` / `nextAtIdx` / `Next` that is not proved yet),
+THEN `executeGroupBy` — `mergeGroupCounts` over the shards in arrival order with the fetch limit,
+then offset and limit — returns exactly the specification: every combination with a non-zero total
+count at or after the start, ascending, exact totals, sliced by offset and limit. -/
+theorem C16_groupby_of_shards (db : DB) (a : GroupByArgs) (shards : List Nat)
+    (hplain : ∀ ch ∈ a.children, ch.limit = none ∧ ch.column = none)
+    (hsmall : (Spec.allGroups db a shards).length ≤ noLimit)
+    (hlim : ∀ l, a.limit = some l → l + a.offset.getD 0 < noLimit)
+    (hshard : ∀ sh ∈ shards, groupByShard db a (a.children.map (fun _ => [])) sh =
+      (Spec.shardGroups db a shards sh).take (fetchLimit a)) :
+    groupBy db a shards = Spec.groupBy db a shards := by
+  have hdoms : ∀ d ∈ Spec.groupDoms db a shards, d.Pairwise (· < ·) := by
+    rw [groupDoms_plain db a shards hplain]
+    intro d hd
+    rcases List.mem_map.mp hd with ⟨ch, _, rfl⟩
+    exact sorted_sortDedup _
+  -- the merged list is the first fetchLimit groups of the totals
+  have hmerged : shards.foldl (fun acc sh => mergeGroupCounts acc
+      (groupByShard db a (a.children.map (fun _ => [])) sh) (fetchLimit a)) [] =
+      (Spec.allGroups db a shards).take (fetchLimit a) := by
+    have e1 : shards.foldl (fun acc sh => mergeGroupCounts acc
+        (groupByShard db a (a.children.map (fun _ => [])) sh) (fetchLimit a)) [] =
+        (shards.map (fun sh => (Spec.shardGroups db a shards sh).take (fetchLimit a))).foldl
+          (fun acc l => mergeGroupCounts acc l (fetchLimit a)) [] := by
+      rw [List.foldl_map]
+      exact foldl_congr_mem _ _ shards [] (fun acc sh hsh => by rw [hshard sh hsh])
+    rw [e1]
+    have := foldl_mergeGroupCounts a.children.length (fetchLimit a) (shards.map (Spec.shardGroups db a shards))
+      (by
+        intro l hl
+        rcases List.mem_map.mp hl with ⟨sh, _, rfl⟩
+        exact shardGroups_GLen db a shards sh)
+    simp only [List.map_map] at this
+    rw [show (shards.map ((fun x => x.take (fetchLimit a)) ∘ Spec.shardGroups db a shards)) =
+      shards.map (fun sh => (Spec.shardGroups db a shards sh).take (fetchLimit a)) from rfl] at this
+    rw [this, allGroups_eq_merge db a shards hdoms]
+  unfold groupBy
+  simp only
+  -- children without limit / column need no Rows call ahead of the shards
+  have hcr : a.children.map (fun ch =>
+      if ch.limit.isSome ∨ ch.column.isSome then
+        some (rows db { field := ch.field, previous := ch.previous, limit := ch.limit, column := ch.column } shards)
+      else none) = a.children.map (fun _ => (none : Option (List Nat))) := by
+    apply List.map_congr_left
+    intro ch hch
+    have := hplain ch hch
+    simp [this.1, this.2]
+  rw [hcr]
+  have hany : ((a.children.map (fun _ => (none : Option (List Nat)))).any (fun r => r == some [])) = false := by
+    simp
+  simp only [hany, Bool.false_eq_true, if_false, List.map_map]
+  rw [show (a.children.map ((fun x => x.getD []) ∘ fun _ => (none : Option (List Nat)))) =
+    a.children.map (fun _ => ([] : List Nat)) from rfl]
+  rw [hmerged]
+  unfold Spec.groupBy
+  simp only
+  cases hl : a.limit with
+  | none =>
+    have hL : fetchLimit a = noLimit := by simp [fetchLimit, hl]
+    rw [hL, List.take_of_length_le hsmall]
+    cases ho : a.offset with
+    | none => simp
+    | some o =>
+      simp only [Option.getD_some]
+      split
+      · rfl
+      · rename_i h; exact (List.drop_eq_nil_iff.mpr (Nat.le_of_not_lt h)).symm
+  | some l =>
+    have hlt := hlim l hl
+    have hL : fetchLimit a = l + a.offset.getD 0 := by
+      simp only [fetchLimit, hl]
+      simp [hlt]
+    rw [hL]
+    cases ho : a.offset with
+    | none =>
+      simp only [Option.getD_none, Nat.add_zero, List.drop_zero]
+      split
+      · simp [List.take_take]
+      · rfl
+    | some o =>
+      simp only [Option.getD_some]
+      have := C16_groupby_partial_aux (Spec.allGroups db a shards) o l
+      exact this
+
+/-! #### the per-shard iterator, one field -/
+
+/-- `executeGroupByShard` for a GroupBy with ONE child (no child limit / column), through the real
+iterator model (`newGroupByIterator` with `previous`, `nextAtIdx`, `Next`, the result loop and its
+fuel): the rows of the shard's fragment after `previous`, ascending, that have a bit inside the
+filter, each with its number of bits inside the filter, the first `limit+offset` of them. -/
+theorem C16_groupby_shard_single (db : DB) (a : GroupByArgs) (ch : ChildArgs) (hch : a.children = [ch])
+    (sh : Nat) (st : Store) (hf : db.frag ⟨ch.field, none, sh⟩ = some st) :
+    groupByShard db a [[]] sh =
+      ((stream1 st (a.filter.map (· sh)) (fragRows st 0 []) (start1 (fragRows st 0 []) ch.previous)).take
+        (fetchLimit a)).map (fun p => (⟨p.1, p.2⟩ : GroupCount)) := by
+  unfold groupByShard
+  simp only [hch, List.map_cons, List.map_nil, hf, List.any_cons, Option.isNone_some, List.any_nil,
+    Bool.or_self, Bool.false_eq_true, if_false, List.zip_cons_cons, List.zip_nil_right, Option.getD_some,
+    List.length_cons, List.length_nil, List.foldl_cons, List.foldl_nil]
+  have hgood := gbiInit_single st (a.filter.map (· sh)) ch
+  simp only at hgood
+  apply gbiCollect_single st (a.filter.map (· sh)) (fragRows st 0 []) _ (by omega) (fetchLimit a) _ 0 _ _ hgood
+  have := stream1_length_le st (a.filter.map (· sh)) (fragRows st 0 []) (start1 (fragRows st 0 []) ch.previous)
+  simp only [Nat.min_def]
+  split <;> split <;> omega
+
+/-! #### paging GroupBy by `previous` -/
+
+theorem lexGE_bumpLast : ∀ (p t : List Nat), t.length = p.length → p ≠ [] →
+    Spec.lexGE t (Spec.bumpLast p) = decide (p < t)
+  | [], _, _, hp => absurd rfl hp
+  | [x], t, hlen, _ => by
+    match t, hlen with
+    | [a], _ =>
+      simp only [Spec.bumpLast, Spec.lexGE, List.cons_lt_cons_iff, List.lt_irrefl, and_false, or_false]
+      by_cases h1 : a > x + 1
+      · simp [h1] <;> omega
+      · by_cases h2 : a < x + 1
+        · simp [h1, h2] <;> omega
+        · have : a = x + 1 := by omega
+          subst this; simp
+  | x :: y :: rest, t, hlen, _ => by
+    match t, hlen with
+    | a :: as, hlen =>
+      have hlen' : as.length = (y :: rest).length := by simpa using hlen
+      have ih := lexGE_bumpLast (y :: rest) as hlen' (by simp)
+      simp only [Spec.bumpLast, Spec.lexGE, List.cons_lt_cons_iff]
+      by_cases h1 : a > x
+      · simp [h1]
+      · by_cases h2 : a < x
+        · have h3 : ¬ x < a := by omega
+          have h4 : ¬ x = a := by omega
+          simp [h1, h2, h3, h4]
+        · have e : a = x := by omega
+          subst e
+          simp only [Nat.lt_irrefl, if_false, ih, false_or, true_and]
+
+/-- Set `previous` of every child to the components of a group. -/
+def withPrevious (chs : List ChildArgs) (t : List Nat) : List ChildArgs :=
+  (chs.zip t).map (fun (ch, p) => { ch with previous := some p })
+
+def gLt (x y : GroupCount) : Bool := decide (x.group < y.group)
+
+theorem withPrevious_facts : ∀ (chs : List ChildArgs) (t : List Nat), t.length = chs.length →
+    (withPrevious chs t).map (·.field) = chs.map (·.field) ∧
+    (withPrevious chs t).map (fun ch => ch.previous.getD 0) = t ∧
+    (withPrevious chs t).all (fun ch => ch.previous.isSome) = true ∧
+    (withPrevious chs t).length = chs.length ∧
+    (∀ ch ∈ withPrevious chs t, ∃ ch0 ∈ chs, ch.field = ch0.field ∧ ch.limit = ch0.limit ∧ ch.column = ch0.column)
+  | [], [], _ => by simp [withPrevious]
+  | [], _ :: _, h => by simp at h
+  | _ :: _, [], h => by simp at h
+  | ch :: chs, p :: ps, h => by
+    have ih := withPrevious_facts chs ps (by simpa using h)
+    simp only [withPrevious, List.zip_cons_cons, List.map_cons, List.all_cons, List.length_cons] at ih ⊢
+    refine ⟨by rw [ih.1], by simp [ih.2.1], by simp [ih.2.2.1], by rw [ih.2.2.2.1], ?_⟩
+    intro c hc
+    rcases List.mem_cons.mp hc with e | hc'
+    · exact ⟨ch, by simp, by rw [e], by rw [e], by rw [e]⟩
+    · obtain ⟨c0, hc0, h1⟩ := ih.2.2.2.2 c hc'
+      exact ⟨c0, List.mem_cons_of_mem _ hc0, h1⟩
+
+/-- C16 paging for GroupBy by `previous` (on the specification; `C16_groupby_of_shards` carries it to
+the code once the per-shard iterator statement is available). Children without limit / column, no
+`previous`, no offset. The first page is the first `l` groups; the request whose children carry
+the components of group `g` as `previous` returns the first `l` groups after `g`; and requesting
+pages with `previous` = last group of the page before until a page comes back empty, then
+concatenating, gives the whole GroupBy answer. -/
+theorem C16_paging_groupby (db : DB) (a : GroupByArgs) (shards : List Nat)
+    (hplain : ∀ ch ∈ a.children, ch.limit = none ∧ ch.column = none)
+    (hprev : ∀ ch ∈ a.children, ch.previous = none) (hk : a.children ≠ []) (hoff : a.offset = none)
+    (l : Nat) (hl : l > 0) :
+    let full := Spec.allGroups db a shards
+    Spec.groupBy db { a with limit := some l } shards = Paging.pageAfter gLt full none l ∧
+    (∀ g : GroupCount, g.group.length = a.children.length →
+      Spec.groupBy db { a with children := withPrevious a.children g.group, limit := some l } shards =
+        Paging.pageAfter gLt full (some g) l) ∧
+    Paging.pagePrev gLt full l (full.length + 1) none [] = full := by
+  intro full
+  have hdoms : ∀ d ∈ Spec.groupDoms db a shards, d.Pairwise (· < ·) := by
+    rw [groupDoms_plain db a shards hplain]
+    intro d hd
+    rcases List.mem_map.mp hd with ⟨ch, _, rfl⟩
+    exact sorted_sortDedup _
+  have hT := tuples_sorted _ hdoms
+  have hstart0 : Spec.startTuple a = none := by
+    unfold Spec.startTuple
+    cases hc : a.children with
+    | nil => exact absurd hc hk
+    | cons c rest =>
+      have := hprev c (by rw [hc]; simp)
+      simp [this]
+  refine ⟨?_, ?_, ?_⟩
+  · simp only [Spec.groupBy, hoff, Option.getD_none, List.drop_zero, Paging.pageAfter]
+    rw [List.filter_eq_self.mpr (fun _ _ => rfl)]
+    rfl
+  · intro g hg
+    obtain ⟨hf, hp, hall, hlen, hmem⟩ := withPrevious_facts a.children g.group hg
+    let a' : GroupByArgs := { a with children := withPrevious a.children g.group, limit := some l }
+    have hplain' : ∀ ch ∈ a'.children, ch.limit = none ∧ ch.column = none := by
+      intro ch hch
+      obtain ⟨c0, hc0, _, h2, h3⟩ := hmem ch hch
+      have := hplain c0 hc0
+      exact ⟨by rw [h2]; exact this.1, by rw [h3]; exact this.2⟩
+    have hd' : Spec.groupDoms db a' shards = Spec.groupDoms db a shards := by
+      rw [groupDoms_plain db a' shards hplain', groupDoms_plain db a shards hplain]
+      have : a'.children.map (fun ch => Spec.fieldRows db ch.field shards) =
+          (a'.children.map (·.field)).map (fun f => Spec.fieldRows db f shards) := by simp
+      rw [this]
+      have : a.children.map (fun ch => Spec.fieldRows db ch.field shards) =
+          (a.children.map (·.field)).map (fun f => Spec.fieldRows db f shards) := by simp
+      rw [this, hf]
+    have hstart' : Spec.startTuple a' = some (Spec.bumpLast g.group) := by
+      unfold Spec.startTuple
+      have hpos : (withPrevious a.children g.group).length > 0 := by
+        rw [hlen]; exact List.length_pos_iff.mpr hk
+      simp only [a', hall, hp, Bool.true_and, decide_eq_true_eq, hpos, if_true]
+    have hgne : g.group ≠ [] := by
+      intro e; rw [e] at hg
+      exact hk (List.eq_nil_of_length_eq_zero hg.symm)
+    show Spec.groupBy db a' shards = _
+    simp only [Spec.groupBy, a', hoff, Option.getD_none, List.drop_zero, Paging.pageAfter]
+    congr 1
+    -- the groups from the start on are the groups after g
+    unfold Spec.allGroups
+    show (Spec.tuples (Spec.groupDoms db a' shards)).filterMap _ = _
+    rw [hd']
+    show _ = List.filter (fun x => gLt g x) ((Spec.tuples (Spec.groupDoms db a shards)).filterMap (fun t =>
+      Spec.groupOf a t (Spec.groupCount db (a.children.map (·.field)) t a.filter shards)))
+    rw [List.filter_filterMap]
+    apply filterMap_congr_mem
+    intro t ht
+    have htl : t.length = g.group.length := by
+      rw [tuples_length _ t ht, hg]; simp [Spec.groupDoms]
+    have hge := lexGE_bumpLast g.group t htl hgne
+    show Spec.groupOf a' t (Spec.groupCount db (a'.children.map (·.field)) t a'.filter shards) = _
+    have hfields : a'.children.map (·.field) = a.children.map (·.field) := hf
+    rw [hfields]
+    show Spec.groupOf a' t (Spec.groupCount db (a.children.map (·.field)) t a.filter shards) = _
+    generalize Spec.groupCount db (a.children.map (·.field)) t a.filter shards = c
+    simp only [Spec.groupOf, Spec.startOK, hstart', hstart0, hge, gLt]
+    by_cases hc : c > 0
+    · by_cases hlt : g.group < t
+      · simp [hc, hlt, Option.filter]
+      · simp [hc, hlt, Option.filter]
+    · simp [hc, Option.filter]
+  · apply Paging.pagePrev_all gLt _ _ full _ l hl
+    · intro x y z h1 h2
+      simp only [gLt, decide_eq_true_eq] at *
+      exact List.lt_trans h1 h2
+    · intro x; simp [gLt, List.lt_irrefl]
+    · have := sortedK_filterMap _ hT (fun t => Spec.groupOf a t
+        (Spec.groupCount db (a.children.map (·.field)) t a.filter shards)) (fun t y h => groupOf_group a t _ y h)
+      have h2 : full.Pairwise (fun x y => x.group < y.group) := List.pairwise_map.mp this
+      apply h2.imp
+      intro x y h
+      simp [gLt, h]
+
+end GroupByExec
 
 /-- C16 paging for GroupBy by offset: the pages `offset = 0, l, 2l, …` with `limit = l`, requested
 until a page comes back empty, concatenate to the whole ordered list of groups. -/
